@@ -22,6 +22,8 @@ SNAKE_DEFAULT = ["foo", "foo_bar", "ab", "foo_bar_baz"]
 RAW = {"names": ["r#Type", "r#fn", "r#Match"], "snake": ["type", "fn", "match"]}
 KINDS = {
     "unit": (None, []),
+    "t0": (False, []),     # `V()`: a tuple variant with an empty field list
+    "n0": (True, []),      # `V {}`
     "t1a": (False, ["Fa"]),
     "t1b": (False, ["Fb"]),
     "t2": (False, ["Fa", "Fb"]),
@@ -77,7 +79,7 @@ def gen_case(cid, kinds, cfg, generic):
         for fi, t in enumerate(tys):
             fa = "#[try_into(ignore)] " if fi in fign.get(vi, ()) else ""
             fs.append(fa + (("g%d: " % fi) if named else "") + ty(t))
-        body = "" if k == "unit" else (" { " + ", ".join(fs) + " }" if named else "(" + ", ".join(fs) + ")")
+        body = "" if named is None else (" { " + ", ".join(fs) + " }" if named else "(" + ", ".join(fs) + ")")
         variants.append(" ".join(attrs) + " " + NAMES[vi] + body)
     eattrs = []
     if refs and "sel" not in cfg:
@@ -92,7 +94,7 @@ def gen_case(cid, kinds, cfg, generic):
         named, tys = KINDS[kinds[vi]]
         vals = ["%s(%d)" % (t, base + 10 * vi + fi) for fi, t in enumerate(tys)]
         if not tys:
-            return "E::%s" % NAMES[vi]
+            return "E::%s%s" % (NAMES[vi], "" if named is None else (" {}" if named else "()"))
         if named:
             return "E::%s { %s }" % (NAMES[vi], ", ".join("g%d: %s" % (fi, v) for fi, v in enumerate(vals)))
         return "E::%s(%s)" % (NAMES[vi], ", ".join(vals))
@@ -100,7 +102,7 @@ def gen_case(cid, kinds, cfg, generic):
     def pat(vi, binds):
         named, tys = KINDS[kinds[vi]]
         if not tys:
-            return "E::%s" % NAMES[vi]
+            return "E::%s%s" % (NAMES[vi], "" if named is None else (" {}" if named else "()"))
         if named:
             return "E::%s { %s }" % (NAMES[vi], ", ".join("g%d: %s" % (fi, b) for fi, b in enumerate(binds)))
         return "E::%s(%s)" % (NAMES[vi], ", ".join(binds))
@@ -291,6 +293,13 @@ def run(chk, tier):
     mix_alpha = ["unit", "t1a", "t1b", "t2"] + (["t2s", "n1"] if thorough else [])
     for kinds in itertools.product(mix_alpha, repeat=3):
         add(kinds, {"ignore": {0}, "enable_attr": {2}})
+    # variants with an empty field list (`V()`, `V {}`): accessors exist and behave as for a variant with zero fields
+    ek = ["t0", "n0"]
+    for kinds in [(a,) for a in ek] + [p for a in ek for b in (["unit", "t1a", "t2"] + ek) for p in ((a, b), (b, a))] + [("t0", "unit", "t1a"), ("unit", "n0", "t0")]:
+        add(kinds, {})
+        add(kinds, {"refs": True})
+        if len(kinds) > 1:
+            add(kinds, {"ignore": {0}, "refs": True})
     if not thorough:
         # a few 3- and 4-variant enums sharing field-type tuples
         for kinds in (["t1a", "t1a", "unit"], ["t2", "n2", "t2s"], ["unit", "unit", "t1b", "t1a"], ["t2", "t2", "t1a", "t1a"]):
